@@ -177,9 +177,8 @@ func (hs *HTTPServer) handleStore(w http.ResponseWriter, r *http.Request) {
 			fmt.Printf("Error iterating datastore results: %v\n", result.Error)
 			return
 		}
-		// Exclude reserved genesis keys from the output
-		dsKey := ds.NewKey(result.Key)
-		if dsKey.Equal(genesisInitializedKey) || dsKey.Equal(genesisStateRootKey) {
+		// Exclude reserved keys from the output
+		if isReservedKey(ds.NewKey(result.Key)) {
 			continue
 		}
 		store[result.Key] = string(result.Value)
